@@ -314,7 +314,7 @@ class Gen:
             w = r.random()
             if w < 0.35:
                 ver += 1
-                val = hx(b"v%d" % ver + b"x" * r.choice([0, 10, 100, 200]))
+                val = hx(b"v%d" % ver + b"x" * r.choice([0, 10, 100, 200])) if r.random() > 0.08 else hx(b"")     # the empty value is a value
                 opts = []
                 c = r.random()
                 if c < 0.2:
